@@ -4,6 +4,7 @@
 # On success copies it to /verif/seeded/<ID>-<v>/ with meta.json.
 set -u
 ID=$1; V=$2
+PID=${ID#S}   # property id (round-2 agent directories are named S<property>)
 SRC=/tmp/agents/$ID-out/$V
 WT=/tmp/confirm-$ID-$V
 TGT=/tmp/confirm-target   # shared target dir to save build time (sequential use)
@@ -26,8 +27,8 @@ git checkout -q -- .
 WITHOUT=$(cargo test $PKG --test $TNAME --offline 2>&1 | grep -E '^test result|^error' | head -3)
 echo "suite with change: $NPASS passed, 0 failed"; echo "demo with change:    $WITH"; echo "demo without change: $WITHOUT"
 if echo "$WITH" | grep -q 'FAILED' && echo "$WITHOUT" | grep -q 'test result: ok' ; then
-  D=/verif/seeded/$ID-$V; mkdir -p $D; cp $SRC/patch.diff $SRC/demo.rs $SRC/notes.md $D/
-  python3 - "$ID" "$V" "$DEST" "$PKG" "$TNAME" "$NPASS" "$WITH" "$WITHOUT" <<'PY'
+  D=/verif/seeded/$PID-$V; mkdir -p $D; cp $SRC/patch.diff $SRC/demo.rs $SRC/notes.md $D/
+  python3 - "$PID" "$V" "$DEST" "$PKG" "$TNAME" "$NPASS" "$WITH" "$WITHOUT" <<'PY'
 import sys,json
 ID,V,DEST,PKG,TNAME,NPASS,WITH,WITHOUT=sys.argv[1:9]
 json.dump({"breaks_property":ID,"origin":"independent sub-agent given only the property text and a scratch worktree","demo_location":DEST,
